@@ -1120,6 +1120,16 @@ func (e *Entry) Augment(addErrors bool) (processed, skipped int) {
 			unapplied = append(unapplied, a)
 			continue
 		}
+		if target.Dir == nil || target.Kind == AnyDataEntry || target.Kind == AnyXMLEntry {
+			// Leaves, leaf-lists, anydata and anyxml nodes cannot
+			// have child nodes.
+			if addErrors {
+				e.errorf("%s: augment %s: target %s cannot have child nodes", Source(a.Node), a.Name, target.Kind)
+			}
+			skipped++
+			unapplied = append(unapplied, a)
+			continue
+		}
 		// Augments do not have a prefix we merge in, just a node.
 		// We retain the namespace from the original context of the
 		// augment since the nodes have this namespace even though they
